@@ -12,6 +12,7 @@ mod replay;
 mod report;
 mod scenario;
 mod scripted;
+mod shapes;
 mod storex;
 
 use e1::*;
@@ -61,6 +62,7 @@ fn main() {
                     rep.finish() }
                 "C11" => c11check(tier),
                 "C14" => c14(tier),
+                "C15" => { let mut rep = Report::new("C15", tier, "exploration"); rep.rule = "group-data extension: every value of name/description {empty, ASCII, 2-, 3-, 4-byte UTF-8, NUL inside, 255 B} x 0..3 admins x 4 relay sets x 16 presence patterns of the image fields x versions {1,2,3,65535} round-trips; every prefix truncation, appended suffix, wrong fixed length, version 0, invalid UTF-8 / URL is refused; key-package events, welcome rumors, imeta tags: round trip through the public create/parse pair and every single-field mutation refused; distinct = distinct (family, shape)".into(); shapes::check_c15(&mut rep, tier != "quick"); rep.finish() }
                 "C16" => c16check(tier),
                 "C20" => c20(tier),
                 _ => usage(),
